@@ -26,6 +26,31 @@ Theorem C15_program_side_condition_inhabited :
 Proof. exact program_inhabited. Qed.
 Print Assumptions C15_program_side_condition_inhabited.
 
+(** Which functions run by themselves.  For ALL lists of declarations around the special names
+    (functions, methods with value or pointer receiver, function literals bound to locals, package
+    variables of func type; named init, main or otherwise; any number, any order, any package):
+    yaegi's two tests ([n.child[1].ident == "init" && len(n.child[0].child) == 0] in cfg,
+    [pkgName == mainID] with [gs.sym[mainID]] in CompileAST / importSrc) select exactly the
+    receiver-less functions named init, in source order, then main's main for package main only.
+    [decls_wf]: no package variable named main in package main (Go rejects it). *)
+Theorem C15_special_names_full :
+  forall is_main ds, decls_wf is_main ds = true -> y_special is_main ds = g_special is_main ds.
+Proof. exact special_agree. Qed.
+Print Assumptions C15_special_names_full.
+
+(** Non-vacuity and sensitivity: a program with look-alikes in every package satisfies the side
+    condition, Y and G print the same, and dropping either of the two tests changes the output. *)
+Theorem C15_special_names_inhabited :
+  program_side w_special = true
+  /\ y_trace w_special = Some [3; 4; 22; 5; 1; 11; 12; 18; 15; 2; 17; 0; 19; 13]%N
+  /\ g_trace w_special = Some [3; 4; 22; 5; 1; 11; 12; 18; 15; 2; 17; 0; 19; 13]%N
+  /\ trace_along y_order y_special_no_recv_test (packages w_special) (y_pkg_order w_special)
+     = Some [21; 3; 4; 22; 5; 11; 12; 1; 11; 12; 18; 15; 2; 17; 0; 19; 13]%N
+  /\ trace_along y_order y_special_no_pkg_test (packages w_special) (y_pkg_order w_special)
+     = Some [3; 4; 22; 22; 5; 1; 11; 12; 18; 15; 2; 17; 0; 19; 13]%N.
+Proof. exact special_inhabited. Qed.
+Print Assumptions C15_special_names_inhabited.
+
 (** One package, any declaration list (functions, methods, var x, y = f(), var x, y = e1, e2,
     misleading identifiers): if every identifier an initialiser mentions, directly or through
     function bodies, is declared by an earlier spec, both orders are the declaration order. *)
